@@ -46,9 +46,14 @@ LEVEL_NOTE = ("Trusted: Coq kernel + vm_compute; hand-written models of CPython'
               "datetime's range read as garbage) and F-C08-4 (objects with to_pydatetime returned untruncated; pandas.NaT returned as NaT) are "
               "guarded; objects with hostile attribute hooks are outside the model.")
 DESIGN_REF = "DESIGN.md section 8, C08"
-COQ_IMPORTS = "From Coq Require Import ZArith.\nFrom Orso Require Import Gen.C08_Tables Model.C08.\nOpen Scope Z_scope."
-COQ_CHECKS = {"val": "c08_check", "iso": "c08_check_iso", "fromts": "c08_check_fromts", "int": "c08_check_int", "utf8": "c08_check_utf8"}
-COQ_SHOW = {"val": "c08_show", "iso": "c08_show_iso", "fromts": "c08_show_fromts", "int": "c08_show_int", "utf8": "c08_show_utf8"}
+# The sweep stream writes its small numbers as primitive-integer literals (an order of magnitude cheaper
+# for coqc to read than Z/N numerals); i63 converts them and calls the model's isoh_case.
+COQ_IMPORTS = ("From Coq Require Import ZArith Uint63.\nFrom Orso Require Import Gen.C08_Tables Model.C08.\nOpen Scope Z_scope.\n"
+               "Definition i63 (k y m d sod sep frlen frv sk oh om : int) (b : bool) (hash : int) :=\n"
+               "  isoh_case (to_Z k) (to_Z y) (to_Z m) (to_Z d) (to_Z sod) (to_Z sep) (Z.to_N (to_Z frlen)) (to_Z frv)\n"
+               "            (to_Z sk) (to_Z oh) (to_Z om) b (Z.to_N (to_Z hash)).")
+COQ_CHECKS = {"val": "c08_check", "iso": "c08_check_iso", "isoh": "c08_check_isoh", "fromts": "c08_check_fromts", "int": "c08_check_int", "utf8": "c08_check_utf8"}
+COQ_SHOW = {"val": "c08_show", "iso": "c08_show_iso", "isoh": "c08_show_isoh", "fromts": "c08_show_fromts", "int": "c08_show_int", "utf8": "c08_show_utf8"}
 RULE = ("ISO renderings built from CPython's isoformat() of random date-times over years 1..9999 (uniform over days, plus month/year ends and "
         "leap days) x {T, space} x fraction 0..9 digits x {none, Z, +hh:mm, +hhmm, -hh:mm, -hhmm} x {str, UTF-8 bytes}, minute and date-only "
         "forms; integers / floats / digit strings at and beyond both ends of the representable range, the time_t and struct-tm limits, NaN, "
@@ -578,17 +583,21 @@ def known(case, obs):
 
 # --------------------------------------------------------------------------- Coq terms
 def _pk(cps):
-    """code points -> Coq term of type list N (chunks packed big-endian in base 2^21)"""
-    def one(part):
-        v = 0
-        for c in part:
-            v = (v << 21) | c
-        return len(part), v
-
+    """code points -> Coq term of type list N: short chunks packed big-endian in base 2^8
+    (all code points < 256) or 2^21, chained as  u8 len value (u8 len value ... nil)"""
     cps = list(cps)
-    if len(cps) <= 48:
-        return "(unpack %d 0x%x)" % one(cps)
-    return "(unpacks [%s])" % "; ".join("(%d, 0x%x)%%N" % one(cps[i:i + 48]) for i in range(0, len(cps), 48))
+    if all(c < 256 for c in cps):
+        fn, bits, size = "u8", 8, 14
+    else:
+        fn, bits, size = "u21", 21, 5
+    out = "nil"
+    for i in range((len(cps) - 1) // size * size if cps else -1, -1, -size):
+        v = 0
+        part = cps[i:i + size]
+        for c in part:
+            v = (v << bits) | c
+        out = "(%s %d 0x%x %s)" % (fn, len(part), v, out)
+    return out
 
 
 def _pktext(s):
@@ -713,6 +722,22 @@ def to_coq(case, obs):
     ot = _obs_term(obs)
     if ot is None:
         return None
+    if k == "iso" and case.get("sweep") and len(case["frac"]) <= 6:
+        # exhaustive day sweep: compact case (fields, variant, hash of the text CPython
+        # rendered; the model re-renders it), used only when the observation is the expected one
+        y, m, d, h, mi, s = case["f"]
+        form = case["form"]
+        exp = [y, m, d, h, mi, s, 0] if form == 0 else ([y, m, d, h, mi, 0, 0] if form == 1 else [y, m, d, 0, 0, 0, 0])
+        if ot == "(obs_dt %s)" % " ".join(_z(x) for x in exp):
+            hv = 0
+            for ch in iso_text(case):
+                hv = (hv * 1000003 + ord(ch)) & 1099511627775
+            suf = case["suf"]
+            sk = 0 if suf[0] == "none" else 1 if suf[0] == "Z" else (2 if suf[0] == "+" else 4) + (0 if suf[1] else 1)
+            oh, om = (suf[2], suf[3]) if len(suf) == 4 else (0, 0)
+            return ("isoh", "(i63 %d %d %d %d %d %d %d %d %d %d %d %s 0x%x)%%uint63" % (
+                form, y, m, d, h * 3600 + mi * 60 + s, 0 if case["sep"] == "T" else 1, len(case["frac"]), int(case["frac"] or "0"),
+                sk, oh, om, L.boolean(case["bytes"]), hv))
     if k == "iso":
         y, m, d, h, mi, s = case["f"]
         t = iso_text(case)
@@ -1052,16 +1077,16 @@ def exhaustive(tier):
             dd = datetime.date.fromordinal(o)
             h = (o * 7919) % 86400
             f = [dd.year, dd.month, dd.day, h // 3600, (h // 60) % 60, h % 60]
-            yield {"k": "iso", "f": f, "form": 0, "sep": "T", "frac": "", "suf": sufs[o % 6], "bytes": False}
-            yield {"k": "iso", "f": f, "form": 0, "sep": " ", "frac": "%06d" % ((o * 104729) % 1000000), "suf": sufs[(o + 1) % 6], "bytes": o % 2 == 0}
-            yield {"k": "iso", "f": f, "form": 1, "sep": "T" if o % 2 else " ", "frac": "", "suf": sufs[(o + 2) % 6], "bytes": False}
-            yield {"k": "iso", "f": f, "form": 2, "sep": "T", "frac": "", "suf": sufs[o % 4], "bytes": o % 3 == 0}
+            yield {"k": "iso", "f": f, "form": 0, "sep": "T", "frac": "", "suf": sufs[o % 6], "bytes": False, "sweep": True}
+            yield {"k": "iso", "f": f, "form": 0, "sep": " ", "frac": "%06d" % ((o * 104729) % 1000000), "suf": sufs[(o + 1) % 6], "bytes": o % 2 == 0, "sweep": True}
+            yield {"k": "iso", "f": f, "form": 1, "sep": "T" if o % 2 else " ", "frac": "", "suf": sufs[(o + 2) % 6], "bytes": False, "sweep": True}
+            yield {"k": "iso", "f": f, "form": 2, "sep": "T", "frac": "", "suf": sufs[o % 4], "bytes": o % 3 == 0, "sweep": True}
 
     return it(), "every day of the 400 years %04d-01-01..%04d-12-31 x 4 variants (seconds+T, seconds+space+microseconds, minute form, date only), suffix cycling over all six" % (y0, y0 + 399)
 
 
 def generate(rng, tier):
-    count = 2200 if tier == "quick" else 44000
+    count = 2200 if tier == "quick" else 40000
     for _ in range(count):
         yield _random_case(rng)
 
